@@ -177,13 +177,21 @@ def explore_symbolic(make_world, make_run, shape, *, seed=0, max_paths=10**9, de
                 ks["reproduced"] = False
                 ks["error"] = traceback.format_exc()[-400:]
     # validation of passing paths: same inputs, real classes, no stubs -> same observations
-    for assignment, info, tags in to_validate:
+    from symx import world as _world
+
+    for vi, (assignment, info, tags) in enumerate(to_validate):
+        # thorough tier: every second validation replay realises the hierarchy through ABC registration instead of
+        # inheritance (classes with has-method facts keep inheritance: virtual subclasses do not inherit attributes)
+        use_abc = bool(os.environ.get("VERIF_ABC")) and vi % 2 == 1 and not getattr(W, "hm_names", ())
+        _world.REAL_MODE[0] = "abc" if use_abc else "inherit"
         try:
             st2, c2, W2 = replay(assignment)
         except Exception:  # noqa: BLE001
             res["harness_errors"].append(dict(shape=shape, assignment=assignment,
                                               error="validation replay crashed: " + traceback.format_exc()[-600:]))
             continue
+        finally:
+            _world.REAL_MODE[0] = "inherit"
         nat = st2["samples"][0] if st2["samples"] else None
         if validate_mode == "verdict":
             # method sets whose outcome legitimately depends on set order (recorded C06/C12 findings): the native
